@@ -3,22 +3,28 @@
 From Coq Require Import Reals Lra List ZArith Bool.
 From Inferno Require Import Base.Num Base.NumR Gen.Interpolation Gen.Extrapolation C20.InterpProofs.
 Open Scope R_scope.
-Theorem interp_extrap_roundtrip_all : forall (s t p n dt : R) (tc : T RN) (adjust : option (T RN -> T RN)),
+Theorem interp_extrap_roundtrip_all : forall (s : T RN) (t : R) (p n : T RN) (dt : R) (tc : T RN) (adjust : option (T RN -> T RN)),
   0 < t < dt ->
-  roundtrip (interp_previous RN) (extrap_previous RN) s t p n dt /\
-  roundtrip (interp_next RN) (extrap_next RN) s t p n dt /\
-  roundtrip (interp_nearest RN) (extrap_nearest RN) s t p n dt /\
-  roundtrip (interp_previous RN) (extrap_neighbors RN) s t p n dt /\
-  roundtrip (interp_next RN) (extrap_neighbors RN) s t p n dt /\
-  roundtrip (interp_nearest RN) (extrap_neighbors RN) s t p n dt /\
-  roundtrip (interp_linear RN) (extrap_neighbors RN) s t p n dt /\
-  roundtrip (interp_linear RN)
-    (fun a b c d e : R => extrap_linear_forward RN a b c d e adjust) s t p n dt /\
-  roundtrip (interp_linear RN)
-    (fun a b c d e : R => extrap_linear_backward RN a b c d e adjust) s t p n dt /\
-  roundtrip (fun a b c d : R => interp_expdecay RN a b c d tc)
-    (fun a b c d e : R => extrap_expdecay RN a b c d e tc) s t p n dt /\
-  roundtrip (fun a b c d : R => interp_expratedecay RN a b c d tc)
-    (fun a b c d e : R => extrap_expratedecay RN a b c d e tc) s t p n dt.
+  interp_previous RN (fst (extrap_previous RN s t p n dt))
+    (snd (extrap_previous RN s t p n dt)) t dt = s /\
+  interp_next RN (fst (extrap_next RN s t p n dt)) (snd (extrap_next RN s t p n dt)) t dt = s /\
+  interp_nearest RN (fst (extrap_nearest RN s t p n dt)) (snd (extrap_nearest RN s t p n dt))
+    t dt = s /\
+  interp_previous RN (fst (extrap_neighbors RN s t p n dt))
+    (snd (extrap_neighbors RN s t p n dt)) t dt = s /\
+  interp_next RN (fst (extrap_neighbors RN s t p n dt)) (snd (extrap_neighbors RN s t p n dt))
+    t dt = s /\
+  interp_nearest RN (fst (extrap_neighbors RN s t p n dt))
+    (snd (extrap_neighbors RN s t p n dt)) t dt = s /\
+  interp_linear RN (fst (extrap_neighbors RN s t p n dt))
+    (snd (extrap_neighbors RN s t p n dt)) t dt = s /\
+  interp_linear RN (fst (extrap_linear_forward RN s t p n dt adjust))
+    (snd (extrap_linear_forward RN s t p n dt adjust)) t dt = s /\
+  interp_linear RN (fst (extrap_linear_backward RN s t p n dt adjust))
+    (snd (extrap_linear_backward RN s t p n dt adjust)) t dt = s /\
+  interp_expdecay RN (fst (extrap_expdecay RN s t p n dt tc))
+    (snd (extrap_expdecay RN s t p n dt tc)) t dt tc = s /\
+  interp_expratedecay RN (fst (extrap_expratedecay RN s t p n dt tc))
+    (snd (extrap_expratedecay RN s t p n dt tc)) t dt tc = s.
 Proof. exact (@Inferno.C20.InterpProofs.interp_extrap_roundtrip_all). Qed.
 Print Assumptions interp_extrap_roundtrip_all.
